@@ -566,6 +566,8 @@ impl InnerLocustDB {
             self.pending_wal_flushes.1.notify_all();
             receiver
         };
+        #[cfg(feature = "verif")]
+        crate::verif::sync_point("forceflush:registered");
         // Have to ensure that lock guard is dropped before waiting on receiver
         // The flush thread drops the sender without sending if the flush panicked.
         receiver.recv().expect("WAL flush failed")
